@@ -1,0 +1,17 @@
+//go:build !verif
+
+package webtransport
+
+import (
+	"net"
+
+	"github.com/zishang520/webtransport-go"
+)
+
+type verifNoSession interface {
+	CloseWithError(code webtransport.SessionErrorCode, msg string) error
+	RemoteAddr() net.Addr
+	LocalAddr() net.Addr
+}
+
+func verifSession(*Conn) verifNoSession { return nil }
